@@ -103,7 +103,7 @@ TypeDef(name, vis, fields) ==
    vft |-> NoVft, fields |-> fields]
 
 (* val : a symbolic integer, NumNone when no value is written              *)
-Variant(name, val, dflt) == [name |-> name, val |-> val, dflt |-> dflt]
+Variant(name, val, dflt) == [name |-> name, val |-> val, dflt |-> dflt, doc |-> <<>>]
 EnumDef(name, vis, base, vars) ==
   [k |-> "enum", name |-> name, vis |-> vis, doc |-> <<>>, base |-> base,
    vars |-> vars, singleton |-> None,
@@ -111,7 +111,8 @@ EnumDef(name, vis, base, vars) ==
 
 ExtType(name, size, align) == [name |-> name, size |-> size, align |-> align]
 ExtVal(name, vis, ty, addr) == [name |-> name, vis |-> vis, ty |-> ty, addr |-> addr]
-Impl(name, funcs) == [name |-> name, funcs |-> funcs]
+(* battrs: attributes written on the impl block itself (raw text; the code stores and ignores them) *)
+Impl(name, funcs) == [name |-> name, funcs |-> funcs, battrs |-> <<>>]
 (* a backend block; "\n" marks an absent prologue / epilogue               *)
 NoText == "\n"
 Backend(name, pro, epi) == [name |-> name, pro |-> pro, epi |-> epi]
